@@ -28,7 +28,7 @@ def nontrivial(rec: dict, run: dict) -> bool:
 
 
 def run(tier: str, seed: int) -> int:
-    return S.check(PROP, tier, seed, nontrivial, RULE, with_counterexample=True)
+    return S.check(PROP, tier, seed, nontrivial, RULE, refinement=[("PathCountersRefineExit", ("single",), "F10"), ("StdinFlagsRefineExit", ("single",), "F23")])
 
 
 def replay(path: str, tier: str, seed: int) -> int:
